@@ -1,14 +1,9 @@
 (* C08: a sandboxed interpreter cannot reach the outside world.
    Statements only; the proofs are in Proofs/SandboxProofs.v.  Every statement quantifies over the
-   tables of Generated/SandboxTables.v, regenerated from the Go source on every run of the check.
-
-   FULL statement (false of the current source, see Properties/C08Refuted.v and the known findings):
-     sandbox_tables_pure : forall c n k f, sandboxed c = true -> In (n,k,f) (bindings c) -> k <> KValue -> effect_of c f = []
-     special_forms_pure  : forall c n f, sandboxed c = true -> In (n,f) special_forms -> effect_of c f = []
-     sandbox_no_effect   : forall c p, sandboxed c = true -> effects_of c (run_abs c p) = []
-   Proved here: the same statements EXCEPT for the explicit lists known_leak_bindings / known_leak_specials
-   (closed by vm_compute over the generated tables, so any NEW impure entry breaks the proof), and the full
-   statement for every program that avoids the known leaks. *)
+   tables of Generated/SandboxTables.v, regenerated from the Go source on every run of the check
+   (translator/cmd/sandbox): bindings of every configuration, special forms, implicit function values
+   of the VM, VM core, and the effect classes of every Go function from the intra-package call graph.
+   The purity statements are closed by vm_compute over that file, so ANY impure entry breaks them. *)
 From Coq Require Import String List Bool.
 From ZV Require Import Generated.SandboxTables Model.Sandbox Proofs.SandboxProofs.
 Import ListNotations.
@@ -19,16 +14,16 @@ Theorem capability_closed : forall c p, incl (prims_reached c p) (closure c).
 Proof. exact SandboxProofs.capability_closed. Qed.
 Print Assumptions capability_closed.
 
-(* ---- 2. purity of the generated tables, except the known leaks ---- *)
-Theorem sandbox_tables_pure_except : forall c n k f, sandboxed c = true ->
-  In (n, k, f) (bindings c) -> k <> KValue -> effect_of c f <> [] -> In n (known_leak_bindings c).
-Proof. exact SandboxProofs.sandbox_tables_pure_except. Qed.
-Print Assumptions sandbox_tables_pure_except.
+(* ---- 2. purity of the generated tables ---- *)
+Theorem sandbox_tables_pure : forall c n k f, sandboxed c = true ->
+  In (n, k, f) (bindings c) -> k <> KValue -> effect_of c f = [].
+Proof. exact SandboxProofs.sandbox_tables_pure. Qed.
+Print Assumptions sandbox_tables_pure.
 
-Theorem special_forms_pure_except : forall c n f, sandboxed c = true ->
-  In (n, f) special_forms -> effect_of c f <> [] -> In n known_leak_specials.
-Proof. exact SandboxProofs.special_forms_pure_except. Qed.
-Print Assumptions special_forms_pure_except.
+Theorem special_forms_pure : forall c n f, sandboxed c = true ->
+  In (n, f) special_forms -> effect_of c f = [].
+Proof. exact SandboxProofs.special_forms_pure. Qed.
+Print Assumptions special_forms_pure.
 
 Theorem implicit_prims_pure : forall c n k f, sandboxed c = true -> In (n, k, f) implicit_prims -> effect_of c f = [].
 Proof. exact SandboxProofs.implicit_prims_pure. Qed.
@@ -38,21 +33,14 @@ Theorem vm_core_pure : forall c f, sandboxed c = true -> In f vm_core -> effect_
 Proof. exact SandboxProofs.vm_core_pure. Qed.
 Print Assumptions vm_core_pure.
 
-(* ---- 3. no program has an effect, except through a known leak ---- *)
-Theorem sandbox_no_effect_except : forall c p f, sandboxed c = true ->
-  In f (run_abs c p) -> effect_of c f <> [] -> In f (leak_fns c).
-Proof. exact SandboxProofs.sandbox_no_effect_except. Qed.
-Print Assumptions sandbox_no_effect_except.
+Theorem closure_pure : forall c f, sandboxed c = true -> In f (closure c) -> effect_of c f = [].
+Proof. exact SandboxProofs.closure_pure. Qed.
+Print Assumptions closure_pure.
 
-Theorem sandbox_no_effect_partial : forall c p, sandboxed c = true ->
-  (forall f, In f (leak_fns c) -> ~ In f (run_abs c p)) -> effects_of c (run_abs c p) = [].
+(* ---- 3. THE PROPERTY (full statement): no program has any effect in a sandboxed configuration ---- *)
+Theorem sandbox_no_effect : forall c p, sandboxed c = true -> effects_of c (run_abs c p) = [].
 Proof. exact SandboxProofs.sandbox_no_effect. Qed.
-Print Assumptions sandbox_no_effect_partial.
-
-Theorem sandbox_no_effect_when_pure : forall c p, sandboxed c = true ->
-  leak_fns c = [] -> effects_of c (run_abs c p) = [].
-Proof. exact SandboxProofs.sandbox_no_effect_when_pure. Qed.
-Print Assumptions sandbox_no_effect_when_pure.
+Print Assumptions sandbox_no_effect.
 
 (* ---- non-vacuity: the tables are populated, the classification sees real effects ---- *)
 Example bare_has_many_bindings : Nat.leb 200 (length (bindings Bare)) = true.
@@ -61,12 +49,22 @@ Example special_forms_many : Nat.leb 20 (length special_forms) = true.
 Proof. vm_compute. reflexivity. Qed.
 Example std_extends_bare : Nat.ltb (length (bindings Bare)) (length (bindings Std)) = true.
 Proof. vm_compute. reflexivity. Qed.
-(* the unrestricted control configuration is (correctly) seen as effectful *)
+(* the unrestricted control configuration is (correctly) seen as effectful, also through alias + apply,
+   through the include special form and through the sys builder StandardSetup installs outside a sandbox *)
 Example control_is_effectful :
   predicted_effects Full (PCall (PRef "system") [PConst]) = ["process"].
 Proof. vm_compute. reflexivity. Qed.
 Example control_alias_apply :
   predicted_effects Full (PSeq [PDef "g" (PRef "slurpf"); PCall (PRef "apply") [PRef "g"; PConst]]) = ["file_read"].
+Proof. vm_compute. reflexivity. Qed.
+Example control_include : predicted_effects Full (PSpecial "include" [PConst]) = ["file_read"].
+Proof. vm_compute. reflexivity. Qed.
+Example control_sys_builder : predicted_effects Full (PCall (PRef "sys") [PConst]) = ["process"].
+Proof. vm_compute. reflexivity. Qed.
+(* ... while the same programs are effect-free in the sandboxed configurations *)
+Example sandbox_include_refused : predicted_effects Bare (PSpecial "include" [PConst]) = [].
+Proof. vm_compute. reflexivity. Qed.
+Example sandbox_sys_unbound : predicted_effects Std (PCall (PRef "sys") [PConst]) = [].
 Proof. vm_compute. reflexivity. Qed.
 Example sandbox_plain_program_pure :
   predicted_effects Std (PSeq [PDef "g" (PRef "println"); PCall (PRef "map") [PRef "g"; PConst]; PMacro "req" [PConst]]) = [].
